@@ -57,7 +57,7 @@ def main():
         for pid in relevant(open(patch).read(), everything):
             jobs.append((patch, pid))
     res = {}
-    with ProcessPoolExecutor(max_workers=8) as ex:
+    with ProcessPoolExecutor(max_workers=14) as ex:
         for patch, pid, out in ex.map(one, jobs):
             res.setdefault(patch, []).extend(out)
     for patch in sorted(res):
